@@ -75,6 +75,6 @@ for mf in sorted(glob.glob(os.path.join(out_root, "*", "meta.json"))):
     summary = next((l.strip("# ").strip() for l in first if l.strip() and not l.startswith("#")), "")[:160]
     rows.append("| %s | %s | %s | %s | %s |" % (m["id"], ", ".join(m["files_changed"])[:60], ", ".join(m["detected_by"]) or "**none**", ", ".join(k for k in m["checks_run_against_it"] if k not in m["detected_by"]) or "-", summary.replace("|", "/")))
 with open(os.path.join(out_root, "README.md"), "w") as f:
-    f.write("# Seeded property-breaking changes\n\nEach directory holds `patch.diff` (applies to /repo's current tree), the demonstration (fails with the change, passes without it), and `meta.json`\n(what it breaks, what it needs in order to manifest, how it was confirmed, which checks were run against it). None of these is ever committed to /repo.\n\n")
+    f.write("# Seeded property-breaking changes\n\nEach directory holds `patch.diff` (applies to /repo's current tree), the demonstration (fails with the change, passes without it), and `meta.json`\n(what it breaks, what it needs in order to manifest, how it was confirmed, which checks were run against it). None of these is ever committed to /repo.\n\n`tools/regress_seeded.py` re-applies every change to /repo and re-runs the checks listed under \"detected by\"; see DESIGN.md s.5 for the last full run.\n\n")
     f.write("| id | files | detected by (quick tier) | also run, silent | what it is |\n|---|---|---|---|---|\n" + "\n".join(rows) + "\n")
 print(len(rows), "seeded changes")
